@@ -553,10 +553,6 @@ class MBXML:
         ), f"write_uintvar cannot write integers bigger than {cls.UINTVAR_MAX}"
         bin_val: str = bin(value)[2:][::-1]
 
-        if bin_val[0:7] == "0000000" and (len(bin_val) / 7) > 1:
-            # remove appended zeroes
-            bin_val = bin_val[7:]
-
         bin_len: int = len(bin_val)
         byte_len: int = math.ceil(bin_len / 7)
 
@@ -636,8 +632,19 @@ class MBXML:
         int_part = int(value)
         dec_part = int(value % 1 * 128**precision)
         integer = cls.write_uintvar(int_part)
-        decimal = cls.write_uintvar(dec_part)
+        decimal = cls.write_fraction(dec_part, precision)
         return integer + decimal
+
+    @classmethod
+    def write_fraction(cls, dec_part: int, precision: int) -> bytes:
+        """
+        write fractional part as base-128 digits, most significant first, without trailing zero digits;
+        the reader divides by 128 ** (number of digits), so leading zero digits have to stay
+        """
+        digits = [(dec_part >> (7 * i)) & 0x7F for i in reversed(range(precision))]
+        while len(digits) > 1 and digits[-1] == 0:
+            digits.pop()
+        return bytes([digit | 0x80 for digit in digits[:-1]] + digits[-1:])
 
     @classmethod
     def read_sfloatvar(cls, data: bytes, idx: int) -> Tuple[float, int]:
@@ -657,7 +664,7 @@ class MBXML:
         int_part = int(value)
         dec_part = int(abs(value % (1 if value >= 0 else -1)) * 128**precision)
         integer = cls.write_sintvar(int_part, negative_zero=value < 0)
-        decimal = cls.write_uintvar(dec_part)
+        decimal = cls.write_fraction(dec_part, precision)
         return integer + decimal
 
     @classmethod
